@@ -1,8 +1,9 @@
 (* Proofs for C18, part 2: faults and interruptions of a FileAccessor store on
-   a dataset written by a guarded history (invariant Inv of StRefineProofs):
-   other names' files are untouched, and the reader of the interrupted name
-   finds the old state, a prefix of the new bytes (uncompressed: as-is), or a
-   detectable error. *)
+   a dataset written by a guarded history (invariant Inv of StRefineProofs),
+   for an arbitrary MIME type of the store: other names' files are untouched,
+   and the reader of the interrupted name finds the old state, nothing (after
+   the other form was unlinked), a prefix of the new bytes (uncompressed:
+   as-is), or a data-access error. *)
 From Coq Require Import NArith ZArith Arith List Bool Lia.
 From NGS Require Import Val Ints StFS StFSProofs StFileAccessor StFileAccessorProofs
                         StRefineProofs StFaults.
@@ -18,7 +19,6 @@ Variable trunc : B -> B.
 Hypothesis Hgz : forall l b, gunzip (gz l b) = GzOk b.
 
 Variable c : cfg.
-Variable ex : path -> bool.
 Variable U X : list path.
 Hypothesis Hbase : cleanb (base c) = true.
 Hypothesis HU : forall n, In n U -> n <> [] /\ cleanb n = true /\ gzfree n = true.
@@ -26,64 +26,21 @@ Hypothesis HPF : forall n m, In n U -> In m U -> prefix n m -> n = m.
 Hypothesis HX : forall o, In o X -> ~ In o U /\ o <> [] /\ cleanb o = true /\ gzfree o = true.
 
 Notation empty := (plain []).
-Notation Inv := (Inv B plain gz c ex U).
-Notation phys := (phys c ex).
-Notation zipped := (zipped c ex).
-Notation enc := (enc B plain gz c ex).
 Notation lookup := (lookup B).
 Notation update := (update B).
 Notation run := (run B empty).
 
-(* after makedirs of the parent: same abstract content, parent present *)
-Lemma store_prepare : forall t m n, Inv t m -> In n U ->
-  exists t1, makedirs B t (base c ++ removelast n) = inr t1 /\ Inv t1 m /\
-             lookup t1 (removelast (phys n)) = Some Dir.
-Proof.
-  intros t m n HI Hn. destruct (HU n Hn) as [Hne [Hcl Hfree]].
-  assert (Hclp : cleanb (base c ++ removelast n) = true).
-  { rewrite cleanb_app, Hbase. simpl. eapply cleanb_prefix; [|exact Hcl].
-    destruct (snoc_cases _ n) as [-> | [h [l ->]]]; [contradiction|].
-    rewrite removelast_snoc. apply prefix_app. }
-  destruct (makedirs_ok B t (base c ++ removelast n) (i_closed B plain gz c ex U t m HI) Hclp)
-    as [t1 [Hmk [Hc1 Hl1]]].
-  { intros q d Hq. eapply (way_free B plain gz c ex U HU HPF); eauto. }
-  assert (Hnp : forall s, In s U -> is_prefix (phys s) (base c ++ removelast n) = false).
-  { intros s Hs. destruct (is_prefix (phys s) (base c ++ removelast n)) eqn:E; [|reflexivity].
-    apply is_prefix_iff in E. unfold StRefineProofs.phys in E. apply prefix_cancel in E.
-    exfalso. exact (no_phys_above c ex U HU HPF s n _ Hs Hn E eq_refl). }
-  exists t1. split; [exact Hmk|]. split.
-  - constructor.
-    + exact Hc1.
-    + exact (i_dom B plain gz c ex U t m HI).
-    + intros s Hs. rewrite Hl1, (Hnp s Hs). apply (i_phys B plain gz c ex U t m HI). exact Hs.
-    + intros q d Hl Hp. rewrite Hl1 in Hl.
-      destruct (is_prefix q (base c ++ removelast n)); [discriminate|].
-      exact (i_files B plain gz c ex U t m HI q d Hl Hp).
-    + intros q d Hp Hl. rewrite Hl1 in Hl.
-      destruct (is_prefix q (base c ++ removelast n)); [discriminate|].
-      exact (i_above B plain gz c ex U t m HI q d Hp Hl).
-    + intros q Hl Hp Hneq. rewrite Hl1 in Hl.
-      destruct (is_prefix q (base c ++ removelast n)) eqn:E.
-      * exists n. split; [exact Hn|]. apply is_prefix_iff in E. split.
-        -- eapply prefix_trans; [exact E|]. apply prefix_add.
-           destruct (snoc_cases _ n) as [-> | [h [l ->]]]; [contradiction|].
-           rewrite removelast_snoc. apply prefix_app.
-        -- intro E2. subst q. apply prefix_cancel, prefix_length in E.
-           destruct (snoc_cases _ n) as [-> | [h [l ->]]]; [contradiction|].
-           rewrite removelast_snoc, app_length in E. simpl in E. lia.
-      * exact (i_dirs B plain gz c ex U t m HI q Hl Hp Hneq).
-  - unfold StRefineProofs.phys. rewrite removelast_app_ne by (apply relphys_nonempty; exact Hne).
-    rewrite relphys_parent, Hl1.
-    replace (is_prefix (base c ++ removelast n) (base c ++ removelast n)) with true; [reflexivity|].
-    symmetry. apply is_prefix_iff, prefix_refl.
-Qed.
+(* ---------- one assignment of forms ---------- *)
+Section ST.
+Variable fm : path -> bool.
+Notation Inv := (Inv B plain gz c U fm).
+Notation phys := (phys c fm).
+Notation zipped := (zipped fm).
+Notation enc := (enc B plain gz c fm).
 
-Lemma phys_facts : forall n, In n U -> phys n <> [] /\ cleanb (phys n) = true.
-Proof.
-  intros n Hn. destruct (HU n Hn) as [Hne [Hcl _]]. split.
-  - unfold StRefineProofs.phys. intro E. apply app_eq_nil in E as [_ E]. exact (relphys_nonempty c ex n Hne E).
-  - unfold StRefineProofs.phys. rewrite cleanb_app, Hbase. simpl. apply relphys_clean. exact Hcl.
-Qed.
+Lemma phys_facts' : forall n, In n U -> phys n <> [] /\ cleanb (phys n) = true.
+Proof. intros n Hn. exact (phys_facts c U Hbase HU fm n Hn). Qed.
+Notation phys_facts := phys_facts'.
 
 (* trees that differ from a dataset state only at the physical path of n *)
 Definition over (t1 t' : fs B) (n : path) (Xc : B) : Prop :=
@@ -95,11 +52,11 @@ Lemma over_update : forall t1 m n Xc, Inv t1 m -> In n U ->
   over t1 (update t1 (phys n) (File Xc)) n Xc.
 Proof.
   intros t1 m n Xc HI Hn Hpar. destruct (phys_facts n Hn) as [Hpne Hpcl]. split.
-  - apply closed_update; [exact (i_closed B plain gz c ex U t1 m HI) | exact Hpne | exact Hpar|].
+  - apply closed_update; [exact (i_closed B plain gz c U fm t1 m HI) | exact Hpne | exact Hpar|].
     intro x. left. destruct (lookup t1 (phys n ++ [x])) eqn:E; [|reflexivity].
     exfalso. assert (Hd : lookup t1 (phys n) = Some Dir).
-    { apply (i_closed B plain gz c ex U t1 m HI) with (c := x). rewrite E. discriminate. }
-    exact (phys_not_dir B plain gz c ex U HU HPF t1 m n HI Hn Hd).
+    { apply (i_closed B plain gz c U fm t1 m HI) with (c := x). rewrite E. discriminate. }
+    exact (phys_not_dir B plain gz c U HU HPF fm t1 m n HI Hn Hd).
   - intro q. apply lookup_update. exact Hpne.
 Qed.
 
@@ -121,13 +78,8 @@ Proof.
     destruct (path_eqb (phys n) q); reflexivity.
 Qed.
 
-Lemma no_children : forall t1 m n, Inv t1 m -> In n U -> forall x, lookup t1 (phys n ++ [x]) = None.
-Proof.
-  intros t1 m n HI Hn x. destruct (lookup t1 (phys n ++ [x])) eqn:E; [|reflexivity].
-  exfalso. assert (Hd : lookup t1 (phys n) = Some Dir).
-  { apply (i_closed B plain gz c ex U t1 m HI) with (c := x). rewrite E. discriminate. }
-  exact (phys_not_dir B plain gz c ex U HU HPF t1 m n HI Hn Hd).
-Qed.
+Lemma no_children' : forall t1 m n, Inv t1 m -> In n U -> forall x, lookup t1 (phys n ++ [x]) = None.
+Proof. intros t1 m n HI Hn. exact (no_children B plain gz c U HU HPF fm t1 m n HI Hn). Qed.
 
 (* other names' files are not touched *)
 Lemma over_others : forall t1 t' m n Xc s, Inv t1 m -> over t1 t' n Xc -> In n U -> In s U -> s <> n ->
@@ -136,7 +88,7 @@ Proof.
   intros t1 t' m n Xc s HI [_ Hl] Hn Hs Hne. rewrite Hl.
   destruct (path_eqb (phys n) (phys s)) eqn:E; [|reflexivity].
   apply path_eqb_eq in E. unfold StRefineProofs.phys in E. apply app_inv_head in E.
-  apply (relphys_inj c ex U HU) in E; auto. congruence.
+  apply (relphys_inj U HU fm) in E; auto. congruence.
 Qed.
 
 (* the reader of n on such a tree returns the content found there *)
@@ -158,7 +110,7 @@ Proof.
   { intro z. unfold read_handle. rewrite run_do. simpl exec_call.
     rewrite (read_ok B t' (phys n) Xc Hc Hpcl Hlt). rewrite run_do. simpl exec_call. reflexivity. }
   unfold fetch_prog, probe. rewrite run_do. simpl exec_call.
-  destruct (StRefineProofs.zipped c ex n) eqn:Ez.
+  destruct (StRefineProofs.zipped fm n) eqn:Ez.
   - (* compressed: the plain path holds no file *)
     assert (Hp : with_gz (base c ++ n) = phys n).
     { unfold StRefineProofs.phys, relphys. rewrite Ez. apply with_gz_app. exact Hne. }
@@ -168,9 +120,9 @@ Proof.
       - apply path_eqb_eq in E. rewrite <- Hp in E.
         rewrite with_gz_app in E by exact Hne. apply app_inv_head in E.
         exact (gzfree_not_with_gz n n Hne Hfr E).
-      - destruct (i_files B plain gz c ex U t1 m HI _ d Hd (prefix_app _ _)) as [s [Hs E2]].
+      - destruct (i_files B plain gz c U fm t1 m HI _ d Hd (prefix_app _ _)) as [s [Hs E2]].
         unfold StRefineProofs.phys in E2. apply app_inv_head in E2. symmetry in E2.
-        apply (relphys_eq_free c ex U HU) in E2 as [-> Hz]; auto. congruence. }
+        apply (relphys_eq_free U HU fm) in E2 as [-> Hz]; auto. congruence. }
     rewrite Hnf. cbv iota. rewrite run_do. simpl exec_call. rewrite Hp.
     rewrite (lookup_is_file B t' (phys n) Xc Hc Hpcl Hlt).
     rewrite run_do. simpl exec_call. rewrite Hopen. rewrite Hread. reflexivity.
@@ -183,73 +135,44 @@ Lemma fetch_inv : forall t m n, Inv t m -> In n U ->
   fst (run t (fetch_prog n)) = to_model B plain (spec_fetch m n).
 Proof.
   intros t m n HI Hn. unfold fetch_prog.
-  rewrite (probe_name B plain gz c ex U Hbase HU _ t m n None _ _ HI Hn).
-  pose proof (fetch_after B plain gz gunzip Hgz c ex U Hbase HU t m n HI Hn) as H.
+  rewrite (probe_name B plain gz c U Hbase HU fm _ t m n None _ _ HI Hn).
+  pose proof (fetch_after B plain gz gunzip Hgz c U Hbase HU fm t m n HI Hn) as H.
   unfold after_probe in H. rewrite H. reflexivity.
 Qed.
 
-(* ---------- the store program, call by call ---------- *)
+(* ---------- open / write / close of n, call by call ---------- *)
 
 Variable n : path.
-Variable buf mime : list N.
+Variable buf : list N.
 Variable ow : bool.
 Hypothesis Hn : In n U.
-Hypothesis Hex : exempt mime = ex n.
 
-Definition store_prog := store_at B plain gz c (base c ++ n) buf mime ow.
+(* the states a fault or a cut in write_it can leave, relative to the state tb
+   in which write_it starts *)
+Inductive wleft (tb : fs B) : fs B -> Prop :=
+| WL_base : wleft tb tb
+| WL_over : forall t' Xc, over tb t' n Xc ->
+            (Xc = empty \/ Xc = trunc (enc n buf) \/ Xc = enc n buf) -> wleft tb t'.
 
-Lemma store_shape :
-  store_prog =
-  Do (CMakedirs (base c ++ removelast n)) (fun r =>
-  match r with
-  | RErr _ => Ret AccessErr
-  | _ =>
-    Do (COpen (phys n) (if ow then MW else MX)) (fun r =>
-    match r with
-    | RErr _ => Ret AccessErr
-    | _ =>
-      Do (CWrite (phys n) (enc n buf)) (fun r =>
-      match r with
-      | RErr _ => Do (CClose (phys n)) (fun _ => Ret AccessErr)
-      | _ => Do (CClose (phys n)) (fun r =>
-             match r with RErr _ => Ret AccessErr | _ => Ret (Ok (@VUnit B)) end)
-      end)
-    end)
-  end).
+Lemma open_cases : forall tb m, Inv tb m -> lookup tb (base c ++ removelast n) = Some Dir ->
+  (open_ B empty tb (phys n) (if ow then MW else MX) = inl EEXIST) \/
+  (open_ B empty tb (phys n) (if ow then MW else MX) = inr (update tb (phys n) (File empty))).
 Proof.
-  destruct (HU n Hn) as [Hne _]. unfold store_prog, store_at.
-  assert (Hzip : gzip c && negb (exempt mime) = StRefineProofs.zipped c ex n)
-    by (unfold StRefineProofs.zipped; rewrite Hex; reflexivity).
-  assert (Htarget : (if gzip c && negb (exempt mime) then with_gz (base c ++ n) else base c ++ n) = phys n).
-  { unfold StRefineProofs.phys, relphys. rewrite <- Hzip.
-    destruct (gzip c && negb (exempt mime)); [apply with_gz_app; exact Hne | reflexivity]. }
-  assert (Hdata : (if gzip c && negb (exempt mime) then gz (level c) buf else plain buf) = enc n buf).
-  { unfold StRefineProofs.enc. rewrite <- Hzip. reflexivity. }
-  rewrite Htarget, Hdata. unfold parent. rewrite removelast_app_ne by exact Hne. reflexivity.
-Qed.
-
-(* the states a fault or a cut can leave *)
-Inductive left_state (t t1 : fs B) (m : amap) : fs B -> Prop :=
-| LS_before : left_state t t1 m t
-| LS_dirs : left_state t t1 m t1
-| LS_over : forall t' Xc, over t1 t' n Xc ->
-            (Xc = empty \/ Xc = trunc (enc n buf) \/ Xc = enc n buf) -> left_state t t1 m t'.
-
-Lemma open_cases : forall t1 m, Inv t1 m -> lookup t1 (removelast (phys n)) = Some Dir ->
-  (open_ B empty t1 (phys n) (if ow then MW else MX) = inl EEXIST) \/
-  (open_ B empty t1 (phys n) (if ow then MW else MX) = inr (update t1 (phys n) (File empty))).
-Proof.
-  intros t1 m HI Hpar. destruct (phys_facts n Hn) as [Hpne Hpcl].
-  rewrite (open_ok B empty t1 (phys n) _ (i_closed B plain gz c ex U t1 m HI) Hpcl Hpne Hpar).
-  rewrite (i_phys B plain gz c ex U t1 m HI n Hn).
+  intros tb m HI Hpar0. destruct (phys_facts n Hn) as [Hpne Hpcl].
+  assert (Hpar : lookup tb (removelast (phys n)) = Some Dir)
+    by (rewrite (phys_parent c U HU fm n Hn); exact Hpar0).
+  rewrite (open_ok B empty tb (phys n) _ (i_closed B plain gz c U fm tb m HI) Hpcl Hpne Hpar).
+  rewrite (i_phys B plain gz c U fm tb m HI n Hn).
   destruct (aget m n); destruct ow; auto.
 Qed.
 
-Lemma write_over : forall t1 t' m Xc Y, Inv t1 m -> over t1 t' n Xc ->
-  lookup t1 (removelast (phys n)) = Some Dir ->
+Lemma write_over : forall tb t' m Xc Y, Inv tb m -> over tb t' n Xc ->
+  lookup tb (base c ++ removelast n) = Some Dir ->
   write_at B t' (phys n) Y = update t' (phys n) (File Y).
 Proof.
-  intros t1 t' m Xc Y HI [Hc Hl] Hpar. destruct (phys_facts n Hn) as [Hpne Hpcl].
+  intros tb t' m Xc Y HI [Hc Hl] Hpar0. destruct (phys_facts n Hn) as [Hpne Hpcl].
+  assert (Hpar : lookup tb (removelast (phys n)) = Some Dir)
+    by (rewrite (phys_parent c U HU fm n Hn); exact Hpar0).
   apply write_ok; [exact Hc | exact Hpcl | exact Hpne|].
   rewrite Hl. destruct (path_eqb (phys n) (removelast (phys n))) eqn:E; [|exact Hpar].
   apply path_eqb_eq in E. apply (f_equal (@length _)) in E.
@@ -257,92 +180,257 @@ Proof.
   rewrite E0, removelast_snoc, app_length in E. simpl in E. lia.
 Qed.
 
-Theorem cut_left : forall t m k, Inv t m ->
-  exists t1, Inv t1 m /\ left_state t t1 m (run_cut B empty trunc k t store_prog).
+Lemma write_cut_left : forall tb m k, Inv tb m -> lookup tb (base c ++ removelast n) = Some Dir ->
+  wleft tb (run_cut B empty trunc k tb (write_it B (phys n) (enc n buf) ow)).
 Proof.
-  intros t m k HI. destruct (store_prepare t m n HI Hn) as [t1 [Hmk [HI1 Hpar]]].
-  exists t1. split; [exact HI1|]. rewrite store_shape.
-  destruct k as [|k]; [simpl; apply LS_before|].
-  simpl run_cut. rewrite Hmk.
-  destruct k as [|k]; [simpl; apply LS_dirs|].
-  simpl run_cut.
-  destruct (open_cases t1 m HI1 Hpar) as [Ho|Ho]; rewrite Ho.
-  - simpl. apply LS_dirs.
-  - pose proof (over_update t1 m n empty HI1 Hn Hpar) as Hov.
+  intros tb m k HI Hpar0.
+  assert (Hpar : lookup tb (removelast (phys n)) = Some Dir)
+    by (rewrite (phys_parent c U HU fm n Hn); exact Hpar0).
+  unfold write_it. destruct k as [|k]; [simpl; apply WL_base|].
+  simpl run_cut. destruct (open_cases tb m HI Hpar0) as [Ho|Ho]; rewrite Ho.
+  - simpl. apply WL_base.
+  - pose proof (over_update tb m n empty HI Hn Hpar) as Hov.
     destruct k as [|k].
-    + simpl. rewrite (write_over t1 _ m empty _ HI1 Hov Hpar).
-      eapply LS_over; [eapply over_again; eauto; eapply no_children; eauto | auto].
-    + simpl run_cut. rewrite (write_over t1 _ m empty _ HI1 Hov Hpar).
+    + simpl. rewrite (write_over tb _ m empty _ HI Hov Hpar0).
+      eapply WL_over; [eapply over_again; eauto; eapply no_children'; eauto | auto].
+    + simpl run_cut. rewrite (write_over tb _ m empty _ HI Hov Hpar0).
       destruct k as [|k]; simpl;
-        (eapply LS_over; [eapply over_again; eauto; eapply no_children; eauto | auto]).
+        (eapply WL_over; [eapply over_again; eauto; eapply no_children'; eauto | auto]).
 Qed.
 
-Theorem fault_left : forall t m k e, Inv t m ->
-  exists t1, Inv t1 m /\ left_state t t1 m (snd (run_fault B empty trunc k e t store_prog)).
+Lemma write_fault_left : forall tb m k e, Inv tb m -> lookup tb (base c ++ removelast n) = Some Dir ->
+  wleft tb (snd (run_fault B empty trunc k e tb (write_it B (phys n) (enc n buf) ow))).
 Proof.
-  intros t m k e HI. destruct (store_prepare t m n HI Hn) as [t1 [Hmk [HI1 Hpar]]].
-  exists t1. split; [exact HI1|]. rewrite store_shape.
-  destruct k as [|k]; [simpl; apply LS_before|].
-  simpl run_fault. rewrite Hmk.
-  destruct k as [|k]; [simpl; apply LS_dirs|].
-  simpl run_fault.
-  destruct (open_cases t1 m HI1 Hpar) as [Ho|Ho]; rewrite Ho.
-  - simpl. destruct k; apply LS_dirs.
-  - pose proof (over_update t1 m n empty HI1 Hn Hpar) as Hov.
+  intros tb m k e HI Hpar0.
+  assert (Hpar : lookup tb (removelast (phys n)) = Some Dir)
+    by (rewrite (phys_parent c U HU fm n Hn); exact Hpar0).
+  unfold write_it. destruct k as [|k]; [simpl; apply WL_base|].
+  simpl run_fault. destruct (open_cases tb m HI Hpar0) as [Ho|Ho]; rewrite Ho.
+  - simpl. destruct k; apply WL_base.
+  - pose proof (over_update tb m n empty HI Hn Hpar) as Hov.
     destruct k as [|k].
-    + simpl. rewrite (write_over t1 _ m empty _ HI1 Hov Hpar).
-      eapply LS_over; [eapply over_again; eauto; eapply no_children; eauto | auto].
-    + simpl run_fault. rewrite (write_over t1 _ m empty _ HI1 Hov Hpar).
+    + simpl. rewrite (write_over tb _ m empty _ HI Hov Hpar0).
+      eapply WL_over; [eapply over_again; eauto; eapply no_children'; eauto | auto].
+    + simpl run_fault. rewrite (write_over tb _ m empty _ HI Hov Hpar0).
       destruct k as [|k]; simpl;
-        (eapply LS_over; [eapply over_again; eauto; eapply no_children; eauto | auto]).
+        (eapply WL_over; [eapply over_again; eauto; eapply no_children'; eauto | auto]).
+Qed.
+
+End ST.
+
+(* ---------- the store program, call by call, any MIME type ---------- *)
+
+Variable n : path.
+Variable buf mime : list N.
+Variable ow : bool.
+Hypothesis Hn : In n U.
+
+Definition store_prog := store_at B plain gz c (base c ++ n) buf mime ow.
+Definition zipb : bool := gzip c && negb (exempt mime).
+Definition other_path : path := base c ++ (if zipb then n else with_gz n).
+
+Lemma store_shape : forall fm,
+  store_prog =
+  Do (CMakedirs (base c ++ removelast n)) (fun r =>
+  match r with
+  | RErr _ => Ret AccessErr
+  | _ =>
+    Do (CIsFile other_path) (fun r =>
+    match r with
+    | RErr _ => Ret AccessErr
+    | RBool true =>
+        if ow then Do (CUnlink other_path) (fun r =>
+                     match r with
+                     | RErr _ => Ret AccessErr
+                     | _ => write_it B (phys c (upd fm n zipb) n) (enc B plain gz c (upd fm n zipb) n buf) ow
+                     end)
+        else Ret AccessErr
+    | _ => write_it B (phys c (upd fm n zipb) n) (enc B plain gz c (upd fm n zipb) n buf) ow
+    end)
+  end).
+Proof.
+  intro fm. destruct (HU n Hn) as [Hne _].
+  assert (Hf : upd fm n zipb n = zipb) by (unfold upd; rewrite path_eqb_refl; reflexivity).
+  unfold store_prog, store_at, other_path, phys, relphys, enc, zipped, parent. rewrite Hf.
+  rewrite removelast_app_ne by exact Hne. fold zipb.
+  destruct zipb; rewrite with_gz_app by exact Hne; reflexivity.
+Qed.
+
+Lemma isfile_other : forall fm t1 m, Inv B plain gz c U fm t1 m ->
+  is_file B t1 other_path = match aget m n with Some _ => negb (Bool.eqb (fm n) zipb) | None => false end.
+Proof.
+  intros fm t1 m HI1. destruct (HU n Hn) as [Hne [Hcl Hfree]]. unfold other_path. destruct zipb.
+  - rewrite (is_file_plain B plain gz c U Hbase HU fm t1 m n HI1 Hne Hcl Hfree), (in_U_existsb U n Hn).
+    destruct (aget m n); [|reflexivity]. unfold zipped. destruct (fm n); reflexivity.
+  - rewrite <- (with_gz_app (base c) n Hne).
+    rewrite (is_file_gz B plain gz c U Hbase HU fm t1 m n HI1 Hne Hcl Hfree), (in_U_existsb U n Hn).
+    destruct (aget m n); [|reflexivity]. unfold zipped. destruct (fm n); reflexivity.
+Qed.
+
+Lemma other_is_phys : forall fm, fm n = negb zipb -> other_path = phys c fm n.
+Proof.
+  intros fm H. unfold other_path, phys, relphys, zipped. rewrite H. destruct zipb; reflexivity.
+Qed.
+
+(* the states a fault or a cut can leave *)
+Inductive left_state (fm : path -> bool) (m : amap) : fs B -> Prop :=
+| LS : forall fmb tb mb t',
+    Inv B plain gz c U fmb tb mb ->
+    (forall s, In s U -> s <> n -> fmb s = fm s /\ aget mb s = aget m s) ->
+    (aget mb n = aget m n \/ aget mb n = None) ->
+    wleft fmb n buf tb t' -> left_state fm m t'.
+
+Lemma LS_same : forall fm m tb, Inv B plain gz c U fm tb m -> left_state fm m tb.
+Proof.
+  intros fm m tb HI. eapply (LS fm m fm tb m tb HI); [intros; split; reflexivity | left; reflexivity | apply WL_base].
+Qed.
+
+Lemma upd_others : forall fm s, s <> n -> upd fm n zipb s = fm s.
+Proof. intros fm s H. unfold upd. rewrite (proj2 (path_eqb_neq s n) H). reflexivity. Qed.
+
+Lemma reform_here : forall fm t1 m, Inv B plain gz c U fm t1 m ->
+  (aget m n = None \/ fm n = zipb) -> Inv B plain gz c U (upd fm n zipb) t1 m.
+Proof.
+  intros fm t1 m HI H. apply (Inv_reform B plain gz c U HU HPF fm _ t1 m HI).
+  intros s Hs Hsome. unfold upd. destruct (path_eqb s n) eqn:E; [|reflexivity].
+  apply path_eqb_eq in E. subst s. destruct H as [H|H]; [congruence | symmetry; exact H].
+Qed.
+
+Theorem cut_left : forall fm t m k, Inv B plain gz c U fm t m ->
+  left_state fm m (run_cut B empty trunc k t store_prog).
+Proof.
+  intros fm t m k HI.
+  assert (Hsame : forall s, In s U -> s <> n -> fm s = fm s /\ aget m s = aget m s) by (intros; split; reflexivity).
+  destruct (store_prepare B plain gz c U Hbase HU HPF fm t m n HI Hn) as [t1 [Hmk [HI1 Hdir]]].
+  rewrite (store_shape fm).
+  destruct k as [|k]; [simpl; apply LS_same; exact HI|].
+  simpl run_cut. rewrite Hmk.
+  destruct k as [|k]; [simpl; apply LS_same; exact HI1|].
+  simpl run_cut. rewrite (isfile_other fm t1 m HI1).
+  assert (Hsame' : forall s, In s U -> s <> n -> upd fm n zipb s = fm s /\ aget m s = aget m s)
+    by (intros s Hs Hne; split; [apply upd_others; exact Hne | reflexivity]).
+  destruct (aget m n) as [old|] eqn:Eg.
+  - destruct (Bool.eqb (fm n) zipb) eqn:Ef; simpl negb; cbv iota.
+    + apply eqb_prop in Ef.
+      pose proof (reform_here fm t1 m HI1 (or_intror Ef)) as HI1'.
+      eapply LS; [exact HI1' | exact Hsame' | left; reflexivity|].
+      apply (write_cut_left (upd fm n zipb) n buf ow Hn t1 m k HI1' Hdir).
+    + destruct ow.
+      * destruct k as [|k]; [simpl; apply LS_same; exact HI1|].
+        simpl run_cut.
+        assert (Hfn : fm n = negb zipb) by (destruct (fm n); destruct zipb; try discriminate; reflexivity).
+        rewrite (other_is_phys fm Hfn).
+        destruct (phys_facts c U Hbase HU fm n Hn) as [Hpne Hpcl].
+        rewrite (unlink_ok B t1 (phys c fm n) _ (i_closed B plain gz c U fm t1 m HI1) Hpcl
+                   (lookup_phys_file B plain gz c U fm t1 m n old HI1 Hn Eg)).
+        pose proof (unlink_inv B plain gz c U Hbase HU HPF fm t1 m n old zipb HI1 Hn Eg) as HIr.
+        assert (Hdir' : lookup (remove B t1 (phys c fm n)) (base c ++ removelast n) = Some Dir).
+        { rewrite lookup_remove by exact Hpne.
+          destruct (path_eqb (phys c fm n) (base c ++ removelast n)) eqn:E; [|exact Hdir].
+          apply path_eqb_eq in E. pose proof (lookup_phys_file B plain gz c U fm t1 m n old HI1 Hn Eg) as Hf.
+          rewrite E in Hf. congruence. }
+        eapply LS; [exact HIr | | right; rewrite aget_adel, path_eqb_refl; reflexivity|].
+        -- intros s Hs Hne. split; [apply upd_others; exact Hne|].
+           rewrite aget_adel. rewrite (proj2 (path_eqb_neq n s)) by congruence. reflexivity.
+        -- apply (write_cut_left (upd fm n zipb) n buf true Hn _ (adel m n) k HIr Hdir').
+      * simpl. apply LS_same; exact HI1.
+  - cbv iota.
+    pose proof (reform_here fm t1 m HI1 (or_introl Eg)) as HI1'.
+    eapply LS; [exact HI1' | exact Hsame' | left; reflexivity|].
+    apply (write_cut_left (upd fm n zipb) n buf ow Hn t1 m k HI1' Hdir).
+Qed.
+
+Theorem fault_left : forall fm t m k e, Inv B plain gz c U fm t m ->
+  left_state fm m (snd (run_fault B empty trunc k e t store_prog)).
+Proof.
+  intros fm t m k e HI.
+  assert (Hsame : forall s, In s U -> s <> n -> fm s = fm s /\ aget m s = aget m s) by (intros; split; reflexivity).
+  destruct (store_prepare B plain gz c U Hbase HU HPF fm t m n HI Hn) as [t1 [Hmk [HI1 Hdir]]].
+  rewrite (store_shape fm).
+  destruct k as [|k]; [simpl; apply LS_same; exact HI|].
+  simpl run_fault. rewrite Hmk.
+  destruct k as [|k]; [simpl; apply LS_same; exact HI1|].
+  simpl run_fault. rewrite (isfile_other fm t1 m HI1).
+  assert (Hsame' : forall s, In s U -> s <> n -> upd fm n zipb s = fm s /\ aget m s = aget m s)
+    by (intros s Hs Hne; split; [apply upd_others; exact Hne | reflexivity]).
+  destruct (aget m n) as [old|] eqn:Eg.
+  - destruct (Bool.eqb (fm n) zipb) eqn:Ef; simpl negb; cbv iota.
+    + apply eqb_prop in Ef.
+      pose proof (reform_here fm t1 m HI1 (or_intror Ef)) as HI1'.
+      eapply LS; [exact HI1' | exact Hsame' | left; reflexivity|].
+      apply (write_fault_left (upd fm n zipb) n buf ow Hn t1 m k e HI1' Hdir).
+    + destruct ow.
+      * destruct k as [|k]; [simpl; apply LS_same; exact HI1|].
+        simpl run_fault.
+        assert (Hfn : fm n = negb zipb) by (destruct (fm n); destruct zipb; try discriminate; reflexivity).
+        rewrite (other_is_phys fm Hfn).
+        destruct (phys_facts c U Hbase HU fm n Hn) as [Hpne Hpcl].
+        rewrite (unlink_ok B t1 (phys c fm n) _ (i_closed B plain gz c U fm t1 m HI1) Hpcl
+                   (lookup_phys_file B plain gz c U fm t1 m n old HI1 Hn Eg)).
+        pose proof (unlink_inv B plain gz c U Hbase HU HPF fm t1 m n old zipb HI1 Hn Eg) as HIr.
+        assert (Hdir' : lookup (remove B t1 (phys c fm n)) (base c ++ removelast n) = Some Dir).
+        { rewrite lookup_remove by exact Hpne.
+          destruct (path_eqb (phys c fm n) (base c ++ removelast n)) eqn:E; [|exact Hdir].
+          apply path_eqb_eq in E. pose proof (lookup_phys_file B plain gz c U fm t1 m n old HI1 Hn Eg) as Hf.
+          rewrite E in Hf. congruence. }
+        eapply LS; [exact HIr | | right; rewrite aget_adel, path_eqb_refl; reflexivity|].
+        -- intros s Hs Hne. split; [apply upd_others; exact Hne|].
+           rewrite aget_adel. rewrite (proj2 (path_eqb_neq n s)) by congruence. reflexivity.
+        -- apply (write_fault_left (upd fm n zipb) n buf true Hn _ (adel m n) k e HIr Hdir').
+      * simpl. destruct k; apply LS_same; exact HI1.
+  - cbv iota.
+    pose proof (reform_here fm t1 m HI1 (or_introl Eg)) as HI1'.
+    eapply LS; [exact HI1' | exact Hsame' | left; reflexivity|].
+    apply (write_fault_left (upd fm n zipb) n buf ow Hn t1 m k e HI1' Hdir).
 Qed.
 
 (* (a) whatever the fault or the cut point, the files of the other names are
    exactly what they were *)
-Theorem left_others : forall t t1 m t', Inv t m -> Inv t1 m -> left_state t t1 m t' ->
-  forall s, In s U -> s <> n -> lookup t' (phys s) = lookup t (phys s).
+Theorem left_others : forall fm t m t', Inv B plain gz c U fm t m -> left_state fm m t' ->
+  forall s, In s U -> s <> n -> lookup t' (phys c fm s) = lookup t (phys c fm s).
 Proof.
-  intros t t1 m t' HI HI1 Hls s Hs Hne.
-  assert (H1 : lookup t1 (phys s) = lookup t (phys s)).
-  { rewrite (i_phys B plain gz c ex U t1 m HI1 s Hs), (i_phys B plain gz c ex U t m HI s Hs). reflexivity. }
-  destruct Hls as [ | | t' Xc Hov _]; [reflexivity | exact H1|].
-  rewrite (over_others t1 t' m n Xc s HI1 Hov Hn Hs Hne). exact H1.
+  intros fm t m t' HI Hls s Hs Hne. destruct Hls as [fmb tb mb t' HIb Hsame Hn' Hw].
+  destruct (Hsame s Hs Hne) as [Hf Hg].
+  assert (Hp : phys c fmb s = phys c fm s) by (unfold phys, relphys, zipped; rewrite Hf; reflexivity).
+  assert (H1 : lookup tb (phys c fm s) = lookup t (phys c fm s)).
+  { rewrite <- Hp at 1. rewrite (i_phys B plain gz c U fmb tb mb HIb s Hs), (i_phys B plain gz c U fm t m HI s Hs), Hg.
+    unfold enc, zipped. rewrite Hf. reflexivity. }
+  destruct Hw as [ | t' Xc Hov _]; [exact H1|].
+  rewrite <- Hp at 1. rewrite (over_others fmb tb t' mb n Xc s HIb Hov Hn Hs Hne). rewrite Hp. exact H1.
 Qed.
 
-Theorem store_fault_others : forall t m k e, Inv t m ->
+Theorem store_fault_others : forall fm t m k e, Inv B plain gz c U fm t m ->
   forall s, In s U -> s <> n ->
-  lookup (snd (run_fault B empty trunc k e t store_prog)) (phys s) = lookup t (phys s).
-Proof.
-  intros t m k e HI s Hs Hne. destruct (fault_left t m k e HI) as [t1 [HI1 Hls]].
-  exact (left_others t t1 m _ HI HI1 Hls s Hs Hne).
-Qed.
+  lookup (snd (run_fault B empty trunc k e t store_prog)) (phys c fm s) = lookup t (phys c fm s).
+Proof. intros fm t m k e HI. exact (left_others fm t m _ HI (fault_left fm t m k e HI)). Qed.
 
-Theorem store_cut_others : forall t m k, Inv t m ->
+Theorem store_cut_others : forall fm t m k, Inv B plain gz c U fm t m ->
   forall s, In s U -> s <> n ->
-  lookup (run_cut B empty trunc k t store_prog) (phys s) = lookup t (phys s).
-Proof.
-  intros t m k HI s Hs Hne. destruct (cut_left t m k HI) as [t1 [HI1 Hls]].
-  exact (left_others t t1 m _ HI HI1 Hls s Hs Hne).
-Qed.
+  lookup (run_cut B empty trunc k t store_prog) (phys c fm s) = lookup t (phys c fm s).
+Proof. intros fm t m k HI. exact (left_others fm t m _ HI (cut_left fm t m k HI)). Qed.
 
 (* (b) the reader of the interrupted name *)
 Hypothesis Htp : forall b, exists pre suf, trunc (plain b) = plain pre /\ b = pre ++ suf.
 Hypothesis Htg : forall l b x, gunzip (trunc (gz l b)) = GzOk x -> x = b \/ x = [].
 Hypothesis Hge : gunzip (plain []) = GzOk [].     (* an empty file reads as empty data *)
 
+(* old state | a prefix of the new bytes (all of them when the write
+   completed) | a data-access error (also: the name is absent, which is what
+   an interruption between the unlink of the other form and the write leaves) *)
 Definition crash_ok (old r : outcome (resval B)) : Prop :=
   r = old \/
   (exists pre suf, r = Ok (VData (plain pre)) /\ buf = pre ++ suf) \/
   r = AccessErr.
 
-Theorem left_reader : forall t t1 m t', Inv t m -> Inv t1 m -> left_state t t1 m t' ->
+Theorem left_reader : forall fm m t', left_state fm m t' ->
   crash_ok (to_model B plain (spec_fetch m n)) (fst (run t' (fetch_prog n))).
 Proof.
-  intros t t1 m t' HI HI1 Hls. destruct Hls as [ | | t' Xc Hov HX'].
-  - left. apply fetch_inv; assumption.
-  - left. apply fetch_inv; assumption.
-  - rewrite (fetch_over t1 t' m n Xc HI1 Hn Hov). unfold StRefineProofs.enc in HX'.
-    destruct (StRefineProofs.zipped c ex n) eqn:Ez.
+  intros fm m t' Hls. destruct Hls as [fmb tb mb t' HIb Hsame Hn' Hw].
+  destruct Hw as [ | t' Xc Hov HX'].
+  - rewrite (fetch_inv fmb tb mb n HIb Hn). unfold spec_fetch.
+    destruct Hn' as [E|E]; rewrite E; [left; reflexivity | right; right; reflexivity].
+  - rewrite (fetch_over fmb tb t' mb n Xc HIb Hn Hov). unfold enc in HX'.
+    destruct (zipped fmb n) eqn:Ez.
     + unfold gunzip_out. destruct HX' as [-> | [-> | ->]].
       * rewrite Hge. right. left. exists [], buf. split; reflexivity.
       * destruct (gunzip (trunc (gz (level c) buf))) as [x| | |] eqn:Eg.
@@ -359,22 +447,16 @@ Proof.
       * right. left. exists buf, []. rewrite app_nil_r. split; reflexivity.
 Qed.
 
-Theorem crash_safe : forall t m k, Inv t m ->
+Theorem crash_safe : forall fm t m k, Inv B plain gz c U fm t m ->
   crash_ok (to_model B plain (spec_fetch m n))
            (fst (run (run_cut B empty trunc k t store_prog) (fetch_prog n))).
-Proof.
-  intros t m k HI. destruct (cut_left t m k HI) as [t1 [HI1 Hls]].
-  exact (left_reader t t1 m _ HI HI1 Hls).
-Qed.
+Proof. intros fm t m k HI. exact (left_reader fm m _ (cut_left fm t m k HI)). Qed.
 
 (* the same holds for the state left by a failed (not interrupted) store *)
-Theorem failed_store_reader : forall t m k e, Inv t m ->
+Theorem failed_store_reader : forall fm t m k e, Inv B plain gz c U fm t m ->
   crash_ok (to_model B plain (spec_fetch m n))
            (fst (run (snd (run_fault B empty trunc k e t store_prog)) (fetch_prog n))).
-Proof.
-  intros t m k e HI. destruct (fault_left t m k e HI) as [t1 [HI1 Hls]].
-  exact (left_reader t t1 m _ HI HI1 Hls).
-Qed.
+Proof. intros fm t m k e HI. exact (left_reader fm m _ (fault_left fm t m k e HI)). Qed.
 
 End CRASH.
 
@@ -396,24 +478,34 @@ Definition g_store (g : bool) (buf : list N) (ow : bool) :=
 Lemma overwrite_not_atomic_refuted :
   let t1 := snd (run blob (BPlain []) g_tree (g_store false [1] false)) in
   g_fetch false t1 = Ok (VData (BPlain [1])) /\
-  let '(r, t2) := run_fault blob (BPlain []) (BCut 0) 2 ENOSPC t1 (g_store false [2; 3] true) in
+  let '(r, t2) := run_fault blob (BPlain []) (BCut 0) 3 ENOSPC t1 (g_store false [2; 3] true) in
   r = AccessErr /\ g_fetch false t2 = Ok (VData (BCut 0 (BPlain [2; 3]))).
 Proof. vm_compute. repeat split. Qed.
 
 (* a .gz left truncated (by a failed or an interrupted write) is reported by
    the next fetch as a data-access error *)
 Lemma truncated_gz_detected :
-  let '(r, t2) := run_fault blob (BPlain []) (BCut 2) 2 ENOSPC g_tree (g_store true [2; 3] false) in
+  let '(r, t2) := run_fault blob (BPlain []) (BCut 2) 3 ENOSPC g_tree (g_store true [2; 3] false) in
   r = AccessErr /\ g_fetch true t2 = AccessErr.
 Proof. vm_compute. split; reflexivity. Qed.
 
 (* an interruption right after the .gz file was created leaves an empty file,
    which reads back successfully as empty data *)
 Lemma empty_gz_refuted :
-  g_fetch true (run_cut blob (BPlain []) (BCut 0) 2 g_tree (g_store true [2; 3] false))
+  g_fetch true (run_cut blob (BPlain []) (BCut 0) 3 g_tree (g_store true [2; 3] false))
   = Ok (VData (BPlain [])).
 Proof. vm_compute. reflexivity. Qed.
 
+
+(* a name held as a plain file (exempt MIME type) is stored again under a
+   compressible MIME type with overwrite: the plain form is unlinked first; an
+   interruption between the unlink and the open leaves the name absent *)
+Lemma unlink_then_cut_absent :
+  let t1 := snd (run blob (BPlain []) g_tree (fa_store_file blob BPlain BGz (g_cfg true) g_name [1] mime_jpeg false)) in
+  g_fetch true t1 = Ok (VData (BPlain [1])) /\
+  g_fetch true (run_cut blob (BPlain []) (BCut 0) 3 t1 (g_store true [2; 3] true)) = AccessErr /\
+  g_fetch true (snd (run blob (BPlain []) t1 (g_store true [2; 3] true))) = Ok (VData (BPlain [2; 3])).
+Proof. vm_compute. repeat split. Qed.
 
 (* non-vacuity of the oracle hypotheses of crash_safe: a toy instance
    (contents = byte lists, "gzip" = two magic bytes + payload, interrupted
